@@ -589,7 +589,7 @@ def main(argv):
             log("UNDECIDED obligation count mismatch: %d results for %d registered" % (len(results), expected))
             return 2
         log("OK property=%s tier=%s obligations=%d discharged=%d known_findings=%d wall=%.1fs" % (
-            pid, tier, len(obs), n_ok, len(known), time.time() - t_start))
+            pid, tier, len(obs) - len(known), n_ok, len(known), time.time() - t_start))
         return 0
     finally:
         if a.keep:
@@ -635,7 +635,10 @@ def build_evidence(pid, tier, seed, obs, results, n_ok, violations, known, undec
     scan = scan_assumptions(files)
     pinfo = registry.PROPERTIES.get(pid, {})
     cov = {
-        "obligations": len(obs),
+        # obligations CLAIMED to hold: an obligation listed as an open finding in known-findings.txt (it fails, and the
+        # check says so with a KNOWN-FINDING line) is not claimed and is reported under known_findings_open instead
+        "obligations": len(obs) - len(known),
+        "known_findings_open": [{"obligation": o["id"], "what": o.get("desc", ""), "status": results.get(o["id"], {}).get("status")} for o in known],
         "discharged": sum(1 for o in obs if ok(o)),
         "proved_unbounded": sum(1 for o in proof_obs if ok(o)),
         "bounded_stand_ins": [{"obligation": o["id"], "bound": o.get("bound", ""), "status": results.get(o["id"], {}).get("status")} for o in bounded_obs],
